@@ -23,12 +23,12 @@ from vf.interp.trace_m import TraceMachine, _sid
 
 LEVEL = "translation_validation"
 RULE = (
-    "G-pipe loops: index ops (subviews of 1-2 external buffers on the induction variable, arith) followed by 2..4 stages separated by "
+    "G-pipe loops: index ops (subviews of 2-3 external buffers on the induction variable or an index computed from it, arith, loop-carried counter) followed by 2..5 stages separated by "
     "snax.cluster_sync_op; stage ops are memref.copy (data mover) and linalg.generic (compute) over tile buffers; buffer-to-stage "
     "assignments: producer/consumer in adjacent stages (double buffering), input-only, output-only, non-adjacent and multiple uses "
     "(refused by the compiler); lb in {0, 2, arg}, step in {1, 2, arg}, trip counts 0..7 via 4 runtime vectors per loop. "
     "Non-trivial: the pipeline was constructed and unrolled (pipeline ops gone, >=1 barrier in the result) and >=1 stage executed; "
-    "distinct by (number of stages, stage kinds, buffer assignment, lb/step form, trip count)."
+    "distinct by (number of stages, stage kinds, buffer assignment, features, tile width, lb/step form, trip count)."
 )
 ASSUMPTIONS = [
     "xDSL 0.70 is used through the /verif/vf/compat.py shim instead of the commit the repo pins",
@@ -43,29 +43,54 @@ TIERS = {
 }
 FLOORS = {
     "quick": {"programs": 700, "executions_compared": 1500, "stage_events_compared": 15000, "epoch_pairs_checked": 10000, "distinct_nontrivial": 80, "buffers_duplicated": 300},
-    "thorough": {"programs": 20000, "executions_compared": 70000, "distinct_nontrivial": 3000},
+    "thorough": {"programs": 10000, "executions_compared": 20000, "stage_events_compared": 250000, "distinct_nontrivial": 3000},
 }
 
-TILE = "memref<1x4xi32>"
-EXT = "memref<16x4xi32>"
-SV = "memref<1x4xi32, strided<[4, 1], offset: ?>>"
 ID2 = "affine_map<(d0, d1) -> (d0, d1)>"
 PAR = "#linalg.iterator_type<parallel>"
 
 
 def gen_case(rng):
-    ns = rng.choice([2, 3, 3, 4])
+    ns = rng.choice([2, 3, 3, 4, 5])
     lb = rng.choice([("c", 0)] * 7 + [("c", 2), ("a", None)])
     st = rng.choice([("c", 1)] * 7 + [("c", 2), ("a", None)])
     ub = ("c", rng.randrange(0, 8)) if rng.random() < 0.45 else ("a", None)
+    w = rng.choice([4, 4, 2, 8])
+    TILE, EXT, SV = f"memref<1x{w}xi32>", f"memref<16x{w}xi32>", f"memref<1x{w}xi32, strided<[{w}, 1], offset: ?>>"
+    feats = []
     # tile buffers
     nb = ns + 1
     lines = []
     for b in range(nb):
         lines.append(f'    %t{b} = memref.alloc() {{verif.id = "al{b}"}} : {TILE}')
+    pre_loop, post_loop = [], []
+    if rng.random() < 0.12:
+        # a tile buffer initialised before the loop (value flows into the loop from outside)
+        k = rng.randrange(nb)
+        pre_loop.append("    %c15 = arith.constant 15 : index")
+        pre_loop.append(f"    %sxp = memref.subview %X[%c15, 0] [1, {w}] [1, 1] : {EXT} to {SV}")
+        pre_loop.append(f'    "memref.copy"(%sxp, %t{k}) {{verif.id = "pre", verif.kind = "dm"}} : ({SV}, {TILE}) -> ()')
+        feats.append("live-in")
+    if rng.random() < 0.12:
+        # a tile buffer read after the loop (live-out: the last iteration's value must be found in the buffer the reader names)
+        k = rng.randrange(nb - 1)
+        post_loop.append("    %c15q = arith.constant 15 : index")
+        post_loop.append(f"    %syp = memref.subview %Y[%c15q, 0] [1, {w}] [1, 1] : {EXT} to {SV}")
+        post_loop.append(f'    "memref.copy"(%t{k}, %syp) {{verif.id = "post", verif.kind = "dm"}} : ({TILE}, {SV}) -> ()')
+        feats.append("live-out")
     body = []
-    body.append(f"      %sx = memref.subview %X[%i, 0] [1, 4] [1, 1] : {EXT} to {SV}")
-    body.append(f"      %sy = memref.subview %Y[%i, 0] [1, 4] [1, 1] : {EXT} to {SV}")
+    row = "%i"
+    if rng.random() < 0.15:
+        # the row is computed from the induction variable by an index op (stays inside 0..15 for every vector: i mod 16 -> i)
+        body.append("      %c0r = arith.constant 0 : index")
+        body.append("      %row = arith.addi %i, %c0r : index")
+        row = "%row"
+        feats.append("computed-row")
+    body.append(f"      %sx = memref.subview %X[{row}, 0] [1, {w}] [1, 1] : {EXT} to {SV}")
+    body.append(f"      %sy = memref.subview %Y[{row}, 0] [1, {w}] [1, 1] : {EXT} to {SV}")
+    two_in = rng.random() < 0.25
+    if two_in:
+        body.append(f"      %sw = memref.subview %W[{row}, 0] [1, {w}] [1, 1] : {EXT} to {SV}")
     if rng.random() < 0.3:
         body.append('      "test.op"(%i) {verif.id = "ix", verif.kind = "all"} : (index) -> ()')
     skel = []
@@ -73,6 +98,7 @@ def gen_case(rng):
     prev = "%sx"
     prev_t = SV
     vid = 0
+    hostile = []
     for s in range(ns):
         last = s == ns - 1
         kind = "dm" if (s == 0 or last) and rng.random() < 0.85 else rng.choice(["dm", "compute"])
@@ -85,24 +111,42 @@ def gen_case(rng):
             # hostile assignment: read a buffer written two stages earlier / written twice
             k = rng.randrange(nb)
             src, src_t = f"%t{k}", TILE
+            hostile.append((s, k))
         vid += 1
         if kind == "dm":
             body.append(f'      "memref.copy"({src}, {dst}) {{verif.id = "s{vid}", verif.kind = "dm"}} : ({src_t}, {dst_t}) -> ()')
+            skel.append("d")
+        elif two_in and rng.random() < 0.6:
+            body.append(
+                f'      "linalg.generic"({src}, %sw, {dst}) <{{indexing_maps = [{ID2}, {ID2}, {ID2}], iterator_types = [{PAR}, {PAR}], operandSegmentSizes = array<i32: 2, 1>}}> ({{\n'
+                f"      ^bb0(%x{vid}: i32, %w{vid}: i32, %y{vid}: i32):\n        %r{vid} = arith.addi %x{vid}, %w{vid} : i32\n        \"linalg.yield\"(%r{vid}) : (i32) -> ()\n"
+                f'      }}) {{verif.id = "s{vid}", verif.kind = "compute"}} : ({src_t}, {SV}, {dst_t}) -> ()'
+            )
+            skel.append("C")
         else:
             body.append(
                 f'      "linalg.generic"({src}, {dst}) <{{indexing_maps = [{ID2}, {ID2}], iterator_types = [{PAR}, {PAR}], operandSegmentSizes = array<i32: 1, 1>}}> ({{\n'
                 f"      ^bb0(%x{vid}: i32, %y{vid}: i32):\n        \"linalg.yield\"(%x{vid}) : (i32) -> ()\n"
                 f'      }}) {{verif.id = "s{vid}", verif.kind = "compute"}} : ({src_t}, {dst_t}) -> ()'
             )
-        skel.append(kind[0])
+            skel.append("c")
         if rng.random() < 0.05 and not last:
             # a second op in the same stage (extra input-only copy from X)
             vid += 1
             body.append(f'      "memref.copy"(%sx, %t{nb - 1}) {{verif.id = "s{vid}", verif.kind = "dm"}} : ({SV}, {TILE}) -> ()')
             skel.append("+")
-        body.append('      "snax.cluster_sync_op"() : () -> ()')
+        if last and rng.random() < 0.04:
+            # the last stage is not closed by a barrier: not the recognised shape, the loop must stay as it is
+            feats.append("open-last-stage")
+        else:
+            body.append('      "snax.cluster_sync_op"() : () -> ()')
         prev, prev_t = dst, dst_t
+    if rng.random() < 0.07:
+        body.append('      "test.op"(%i) {verif.id = "tail", verif.kind = "all"} : (index) -> ()')
+        feats.append("op-after-last-barrier")
     args = [f"%X: {EXT}", f"%Y: {EXT}"]
+    if two_in:
+        args.append(f"%W: {EXT}")
     pre = []
     if ub[0] == "a":
         args.append("%ub: index")
@@ -118,11 +162,26 @@ def gen_case(rng):
         args.append("%st: index")
     else:
         pre.append(f"    %st = arith.constant {st[1]} : index")
+    carried = rng.random() < 0.08
+    if carried:
+        # a loop-carried counter, observed after the loop
+        feats.append("iter-arg")
+        pre.append("    %cnt0 = arith.constant 100 : index")
+        head = f"    %cnt = scf.for %i = {lbv} to %ub step %st iter_args(%k = %cnt0) -> (index) {{\n"
+        # the counter update is an index op at the top of the body
+        body.insert(0, "      %kn = arith.addi %k, %i : index")
+        tail = "\n      scf.yield %kn : index\n    }\n" + '    "test.op"(%cnt) {verif.id = "cnt", verif.kind = "all"} : (index) -> ()\n'
+    else:
+        head = f"    scf.for %i = {lbv} to %ub step %st {{\n"
+        tail = "\n      scf.yield\n    }\n"
     text = (
-        "builtin.module {\n  func.func @main(" + ", ".join(args) + ") {\n" + "\n".join(pre + lines) + "\n"
-        f"    scf.for %i = {lbv} to %ub step %st {{\n" + "\n".join(body) + "\n      scf.yield\n    }\n    func.return\n  }\n}\n"
+        "builtin.module {\n  func.func @main(" + ", ".join(args) + ") {\n" + "\n".join(pre + lines + pre_loop) + "\n"
+        + head + "\n".join(body) + tail + ("\n".join(post_loop) + "\n" if post_loop else "") + "    func.return\n  }\n}\n"
     )
-    return {"text": text, "ns": ns, "lb": lb, "st": st, "ub": ub, "skel": "".join(skel), "chain_ok": chain_ok, "argnames": [a.split(":")[0] for a in args]}
+    return {
+        "text": text, "ns": ns, "lb": lb, "st": st, "ub": ub, "skel": "".join(skel), "chain_ok": chain_ok, "argnames": [a.split(":")[0] for a in args],
+        "feats": feats, "hostile": hostile, "w": w,
+    }
 
 
 def vectors(case, rng):
@@ -187,7 +246,7 @@ def execute(module, case, vec):
     args = []
     for i, a in enumerate(f.body.blocks[0].args):
         nm = case["argnames"][i]
-        if nm in ("%X", "%Y"):
+        if nm in ("%X", "%Y", "%W"):
             args.append(m.arg_buffer(i, [s for s in a.type.get_shape()]))
         else:
             args.append(vec[nm])
@@ -230,7 +289,9 @@ def run_case(case, res):
         return out
     pu = p0.clone()
     try:
-        run_passes_limited(c, pu, "construct-pipeline,pipeline-duplicate-buffers,unroll-pipeline", 10)
+        run_passes_limited(c, pu, "construct-pipeline", 10)
+        constructed = any(op.name == "pipeline.pipeline" for op in pu.walk())
+        run_passes_limited(c, pu, "pipeline-duplicate-buffers,unroll-pipeline", 10)
         pu.verify()
     except PassTimeout:
         R.reject(res, "PassTimeout")
@@ -241,9 +302,12 @@ def run_case(case, res):
     if any(op.name.startswith("pipeline.") for op in pu.walk()):
         R.reject(res, "pipeline-ops-left")
         return out
-    unrolled = to_text(pu) != to_text(p0)
-    if not unrolled:
+    if not constructed:
+        # the loop was left as it is (unused index ops may have been removed: not a pipelined form)
         R.bump(res, "loop_not_recognised")
+        for ft in case.get("feats", ()):
+            if ft in ("open-last-stage", "op-after-last-barrier", "iter-arg"):
+                R.bump(res, "declined:" + ft)
         return out
     res["programs"] += 1
     nalloc0 = sum(1 for op in p0.walk() if op.name == "memref.alloc")
@@ -269,8 +333,13 @@ def run_case(case, res):
         R.bump(res, "executions_compared")
         R.bump(res, "stage_events_compared", len(m0.stage_events))
         c0, c1 = Counter(m0.stage_events), Counter(m1.stage_events)
+        # observers outside the index computations (after the stages, after the loop): same multiset of observations
+        o0 = Counter(e for e in m0.trace if e[0] == "T" and e[1] in ("tail", "cnt"))
+        o1 = Counter(e for e in m1.trace if e[0] == "T" and e[1] in ("tail", "cnt"))
         bad = None
-        if c0 != c1:
+        if o0 != o1:
+            bad = f"observations outside the stages differ: missing {list((o0 - o1).items())[:2]} unexpected {list((o1 - o0).items())[:2]}"
+        elif c0 != c1:
             miss = list((c0 - c1).items())[:2]
             extra = list((c1 - c0).items())[:2]
             bad = f"stage executions differ: missing {[(k[0], k[1] if k[1] != 'internal' else '', n) for k, n in miss]} unexpected {[(k[0], k[1] if k[1] != 'internal' else '', n) for k, n in extra]}"
@@ -280,11 +349,17 @@ def run_case(case, res):
             out.append({"kind": "pipelined-loop-differs-from-sequential-loop", "detail": bad + f" (lb={vec['%lb']} step={vec['%st']} trips={vec['trips']} stages={case['ns']})", "case": cs, "info": info})
             return out
         race = epoch_races(m1, res)
+        if race and epoch_races(m0, R.new_result()):
+            # the sequential loop itself is racy under its own barriers: nothing to preserve
+            R.bump(res, "original_racy_skipped")
+            race = None
         if race:
             out.append({"kind": "race-inside-barrier-epoch", "detail": race + f" (lb={vec['%lb']} step={vec['%st']} trips={vec['trips']})", "case": cs, "info": info})
             return out
         if m0.stage_events:
-            R.nontrivial(res, case["ns"], case["skel"], case["lb"][0], case["st"][0], vec["trips"])
+            R.nontrivial(res, case["ns"], case["skel"], case["lb"][0], case["st"][0], vec["trips"], tuple(case.get("feats", ())), tuple(map(tuple, case.get("hostile", ()))), case.get("w"))
+            for ft in case.get("feats", ()):
+                R.bump(res, "feature:" + ft)
     return out
 
 
